@@ -3,6 +3,8 @@ from __future__ import annotations
 
 import inspect
 
+from types import SimpleNamespace
+
 import numpy as np
 import z3
 
@@ -10,7 +12,7 @@ from .. import symjax as sj
 from ..harness import Conc, close
 from ..refsem import Ref, masked_max
 from ..templates import Tmpl, build, dg, lin
-from .pipeline import is_tagged, confirm_crash, default_values, get_function, prove_side_conditions, replace_topdown
+from .pipeline import composed_fallback, is_tagged, confirm_crash, default_values, get_function, prove_side_conditions, replace_topdown
 
 META = {
     "explanation": "Algebraic oracles: pairs of symbolic runs of the real solve function are compared with each other. (i) utility "
@@ -153,7 +155,8 @@ def u_affine(rec, spec, a_value=None):
                         return {"what": f"V'[{t}] != a*V[{t}] + b*sum beta^k", "observed": vb, "expected": exp, "inputs": v}
                 return None
 
-            rec.prove(f"affine[{t}]{list(idx)}", sj.zr(eb2) == a * sj.zr(ea2) + b * geo, assume, replay=replay)
+            full = (sj.zr(eb) == a * sj.zr(ea) + b * geo) if ma else None
+            rec.prove(f"affine[{t}]{list(idx)}", sj.zr(eb2) == a * sj.zr(ea2) + b * geo, assume, replay=composed_fallback(rec, SimpleNamespace(symbols=symbols), assume, full, replay))
     return {"bounds": {"template": A.name}, "symbols": len(symbols)}
 
 
@@ -369,7 +372,8 @@ def u_degenerate(rec, T, second=False):
 
             h = idx[0]
             claim = sj.x_eq(replace_topdown(Vs[t][idx], ma), replace_topdown(Vd[t][idx], mb))
+            full = sj.x_eq(Vs[t][idx], Vd[t][idx]) if ma else None
             for combo in itertools.product(range(2), repeat=2):
                 case = [S.symbols[f"D_{h}_{d}_{t}"] == v for d, v in enumerate(combo)]
-                rec.prove(f"degenerate[{t}]{list(idx)}|D[{h},.,{t}]={combo}", claim, assume + case, replay=replay)
+                rec.prove(f"degenerate[{t}]{list(idx)}|D[{h},.,{t}]={combo}", claim, assume + case, replay=composed_fallback(rec, S, assume + case, full, replay))
     return {"bounds": {"T": T, "stochastic state labels": 2, "dependencies": "(h, d, _period)"}, "symbols": len(S.symbols)}
